@@ -45,6 +45,16 @@ func replayOther(sc, path, prop, kind, class string, raw json.RawMessage) int {
 			}
 		}()
 		resp, st, detail := pcall(w, rp.Request, 120*time.Second)
+		if rp.Expected == "data-race" {
+			// The schedule replays exactly, but the race detector keeps a bounded,
+			// randomly evicted access history per memory word, so it can miss a race
+			// it reported before (it never reports one that is not there). Repeat.
+			for attempt := 1; attempt < 10 && st == callOK; attempt++ {
+				w.in.Close()
+				w.kill()
+				resp, st, detail = pcall(w, rp.Request, 120*time.Second)
+			}
+		}
 		if st != callOK {
 			got := "driver-hang"
 			if st == callCrashed {
